@@ -51,7 +51,9 @@ def run_case(case):
     def factory():
         fs = fsmodel.FS()
         mods, fopen = fsmodel.make_modules(fs)
-        return Twin(fakes=mods, extra_builtins={"open": fopen})
+        T = Twin(fakes=mods, extra_builtins={"open": fopen})
+        T._pv_fs = fs
+        return T
     err = None
     violations, witnesses, obligations, stats = [], [], {}, {"paths": 0, "decisions": 0, "checks": 0, "sat": 0, "unsat": 0, "unknown": 0, "solver_s": 0.0}
     functions = []
@@ -283,8 +285,102 @@ def _replay_schedule(case, free_run_s=2.0):
         shutil.rmtree(tmp, ignore_errors=True)
 
 
+def _replay_forked(case):
+    """the same calls made by forked worker processes, one after another (a legal interleaving): every worker is forked from the parent after the
+    aggregator was constructed, so it shares the module's locks and the files but owns a copy of the aggregator object"""
+    import os
+    import shutil
+    import tempfile
+    import importlib
+    import panoptica.panoptica_aggregator as A
+    importlib.reload(A)
+    names = [NAMES.get(x, "subject_%s" % x) for x in case["names"]]
+    progs = case["thread_prog"]
+    order = []
+    for st in case["steps"]:
+        if st["thread"] not in order:
+            order.append(st["thread"])
+    order += [t for t in range(len(progs)) if t not in order]
+    tmp = tempfile.mkdtemp(prefix="pv_c16f_")
+    out = os.path.join(tmp, "results.tsv")
+
+    class Ev(AC.StubEvaluator):
+        resulting_metric_keys = ["tp"]
+
+        def evaluate(self, pred, ref, **kw):
+            return {"g": (AC.Res({"tp": float(len(kw.get("subject_name") or Ev.current))}), None)}
+    try:
+        agg = A.Panoptica_Aggregator(Ev(), out)
+        blocked, failed = [], {}
+        for t in order + ["later"]:
+            name = LATER if t == "later" else names[t]
+            pid = os.fork()
+            if pid == 0:
+                code = 0
+                try:
+                    if t == "later" or progs[t] == "evaluate":
+                        Ev.current = name
+                        agg.evaluate(None, None, name)
+                    else:
+                        agg.make_statistic()
+                except BaseException:      # noqa
+                    code = 3
+                os._exit(code)
+            deadline = time.time() + 15
+            status = None
+            while time.time() < deadline:
+                r, st_ = os.waitpid(pid, os.WNOHANG)
+                if r:
+                    status = st_
+                    break
+                time.sleep(0.02)
+            if status is None:
+                blocked.append(t)
+                try:
+                    os.kill(pid, 9)
+                    os.waitpid(pid, 0)
+                except OSError:
+                    pass
+                break
+            if os.WEXITSTATUS(status) != 0:
+                failed[t] = os.WEXITSTATUS(status)
+        return {"rows": AC.read_table(out), "blocked": blocked, "failed": failed, "names": names, "order": order}
+    finally:
+        shutil.rmtree(tmp, ignore_errors=True)
+
+
+def _forked_verdict(case):
+    obs = _replay_forked(case)
+    names, progs = obs["names"], case["thread_prog"]
+    submitted = sorted({names[t] for t in range(len(progs)) if progs[t] == "evaluate"} | {LATER})
+    how = "forked worker processes making the calls one after another (%s, then a later call)" % ", ".join("%s(%s)" % (progs[t], names[t] if progs[t] == "evaluate" else "") for t in obs["order"])
+    if obs["blocked"]:
+        return "no_call_blocks_forever: %s: call %s did not return within 15 s" % (how, obs["blocked"]), obs
+    if obs["failed"]:
+        return "only_complete_rows_are_read: %s: calls raised %s" % (how, obs["failed"]), obs
+    rows = obs["rows"] or []
+    if not rows or rows[0] != ["subject_name", "g-tp"]:
+        return "exactly_one_row_per_distinct_subject: %s: header missing: %s" % (how, rows[:1]), obs
+    for s_ in submitted:
+        mine = [r for r in rows[1:] if r and r[0] == s_]
+        if len(mine) != 1:
+            return "exactly_one_row_per_distinct_subject: %s: subject %r has %d rows in %s" % (how, s_, len(mine), rows), obs
+    return None, obs
+
+
 def real_schedule(case, mode, expect):
     obs = _replay_schedule(case)
+    out = _thread_verdict(case, obs)
+    if mode == "violation" and not out.get("violates"):
+        # the model's workers each own a copy of the aggregator object (forked processes); a schedule that threads sharing one object do not
+        # reproduce is tried as forked processes making the same calls sequentially
+        fb, fobs = _forked_verdict(case)
+        if fb is not None:
+            return {"match": True, "violates": True, "reason": fb, "observed": {"rows": fobs["rows"], "execution": "forked processes"}}
+    return out
+
+
+def _thread_verdict(case, obs):
     names = obs["names"]
     progs = case["thread_prog"]
     submitted = sorted({names[t] for t in range(len(progs)) if progs[t] == "evaluate"} | {LATER})
